@@ -82,6 +82,7 @@ fn main() {
             engine::spawn_watchdog(prop, tier, seed(), vd.clone(), false);
             let known = engine::known::Known::load(&format!("{}/known_findings.txt", vd));
             let mut ctx = Ctx::new(prop, tier, seed(), None, &vd);
+            ctx.known_keys = known.keys_for(prop);
             if !props::run(&mut ctx) {
                 machinery_failure("no check is implemented for this property");
             }
